@@ -40,7 +40,8 @@ META = {
                    'lazy write; see C19_lazy_* theorems).'),
     'rule': ('cases = (eager|lazy class with 3 int columns, 0-6 listeners, history of <=20 ops create/assign/set/'
              'syncUpdate/sync/destroy/fetch/select incl. invalid values and unknown keywords) and (3-level inheritance '
-             'chain, listeners per level some connected before the subclass exists, create order); distinct = distinct '
+             'chain, listeners per level some connected before the subclass exists, create order); in 30% of the cases some '
+             'listeners / appended callbacks create rows of a second class with its own listeners; distinct = distinct '
              'request line; non-trivial = at least one listener and one successful write'),
     'trusted': ['pydispatch: receivers of (class, signal) are called once each in connection order',
                 'SQLite executes the logged INSERT/UPDATE/DELETE statements as written'],
@@ -49,7 +50,8 @@ META = {
                  'listeners that raise are outside the model; the clean-up of the thread-local postponed list when a '
                  'create-finished listener or callback raises is checked by a directed oracle scenario only'],
     'assumptions': ['operations address objects created in the same history (handles); listeners are of the four '
-                    'modelled kinds (observe / kwargs[k]=v / kwargs.pop(k) / post_funcs.append)'],
+                    'modelled kinds (observe / kwargs[k]=v / kwargs.pop(k) / post_funcs.append / create a row of another class, '
+                    'from the listener itself or from a callback it appended); the listeners of that other class do not create rows'],
     'exhaustive': False,
 }
 
@@ -117,6 +119,8 @@ def enc_act(act):
         return 's.%d.%s' % (act[1], enc_val(act[2]))
     if act[0] == 'd':
         return 'd.%d' % act[1]
+    if act[0] == 'x':
+        return 'x'
     return 'p.%d' % act[1]
 
 
@@ -135,10 +139,11 @@ def enc_op(op):
 
 def line_of(case):
     if case['kind'] == 'P':
-        return 'P %d %d %s | %s | %s' % (
+        return 'P %d %d %s | %s | %s | %s' % (
             1 if case['lazy'] else 0, NCOLS, ','.join(enc_val(v) for v in DEFAULTS),
             ' '.join('%s:%s' % (s, enc_act(a)) for s, a in case['listeners']),
-            ' ; '.join(enc_op(op) for op in case['ops']))
+            ' ; '.join(enc_op(op) for op in case['ops']),
+            ' '.join('%s:%s' % (s, enc_act(a)) for s, a in case.get('blisteners', [])))
     return 'H | %s | %s' % (
         ' / '.join(' '.join('%s:%s:%d' % (s, enc_act(a), 1 if e else 0) for s, a, e in lv) for lv in case['levels']),
         ' '.join(str(x) for x in case['creates']))
@@ -149,9 +154,13 @@ def norm_case(case):
     if case['kind'] == 'P':
         return {'kind': 'P', 'lazy': bool(case['lazy']),
                 'listeners': [(s, tuple(a)) for s, a in case['listeners']],
+                'blisteners': [(s, tuple(a)) for s, a in case.get('blisteners', [])],
                 'ops': [tuple(tuple(map(tuple, x)) if isinstance(x, list) else x for x in op) for op in case['ops']]}
     return {'kind': 'H', 'levels': [[(s, tuple(a), bool(e)) for s, a, e in lv] for lv in case['levels']],
             'creates': list(case['creates'])}
+
+
+SPAWN_CB = 1000      # callbacks numbered >= 1000 create a row of class B when they run
 
 
 # ----------------------------------------------------------------------------- real code, plain class
@@ -179,7 +188,9 @@ def sql_val(t):
     return 'n' if t == 'NULL' else 'i%d' % int(t)
 
 
-def fmt_plain_sql(q, lastrowid):
+def fmt_plain_sql(q, lastrowid, btable=None):
+    if btable is not None and re.match(r'(INSERT INTO|UPDATE|DELETE FROM) %s\b' % btable, q):
+        return 'b:' + fmt_plain_sql(q, lastrowid)
     m = _sql_ins.match(q)
     if m:
         cols = [c.strip() for c in m.group(2).split(',')]
@@ -242,11 +253,12 @@ def make_class(lazy):
     return cls
 
 
-def make_listener(sink, idx, sig, act, label=None):
-    """returns the receiver; it logs `e<sig><idx>@<id>[kw]` and performs `act` when applicable"""
+def make_listener(sink, idx, sig, act, label=None, prefix='', spawn=None):
+    """returns the receiver; it logs `e<sig><idx>@<id>[kw]` and performs `act` when applicable
+    (`spawn`: callable creating a row of another class, for act `x` and callbacks numbered >= 1000)"""
     def rec(inst, *args):
         oid = inst.__dict__.get('id')
-        tag = 'e%s%s@%s' % (sig, idx if label is None else label(inst, idx), '-' if oid is None else oid)
+        tag = prefix + 'e%s%s@%s' % (sig, idx if label is None else label(inst, idx), '-' if oid is None else oid)
         if label is None:
             if sig in HAS_KW:
                 tag += '[%s]' % enc_kw({keyof(k): v for k, v in args[0].items()})
@@ -257,10 +269,17 @@ def make_listener(sink, idx, sig, act, label=None):
             args[0][colname(act[1])] = act[2]
         elif act[0] == 'd' and sig in HAS_KW:
             args[0].pop(colname(act[1]), None)
+        elif act[0] == 'x':
+            if spawn is not None:
+                spawn()
         elif act[0] == 'p' and sig in HAS_POST:
             p = act[1]
-            args[-1].append(lambda i: sink.append(
-                'p%d@%d' % (p, i.id) if label is None else 'p%d.%s@%d' % (p, label(i, None), i.id)))
+
+            def cb(i):
+                sink.append(prefix + ('p%d@%d' % (p, i.id) if label is None else 'p%d.%s@%d' % (p, label(i, None), i.id)))
+                if p >= SPAWN_CB and spawn is not None:
+                    spawn()
+            args[-1].append(cb)
     return rec
 
 
@@ -285,10 +304,16 @@ def run_plain(case):
     events = e['events']
     cls = make_class(case['lazy'])
     by = make_class(False)          # bystander class: its events must never reach cls's listeners and vice versa
+    bcls = make_class(False)        # class B: rows of it are created from inside listeners / callbacks of cls
+    btable = bcls.sqlmeta.table
     sink = []
     keep = []
+    for idx, (sig, act) in enumerate(case.get('blisteners', [])):
+        f = make_listener(sink, idx, sig, act, prefix='b:')
+        keep.append(f)
+        events.listen(f, bcls, e['sigmap'][sig])
     for idx, (sig, act) in enumerate(case['listeners']):
-        f = make_listener(sink, idx, sig, act)
+        f = make_listener(sink, idx, sig, act, spawn=bcls)
         keep.append(f)
         events.listen(f, cls, e['sigmap'][sig])
     bysink = []
@@ -307,7 +332,8 @@ def run_plain(case):
             k = op[0]
             h = op[1] if k not in ('C', 'L') else None
             if h is not None and h >= len(objs):
-                results.append({'out': 'nohandle', 'entries': [], 'table': before, 'before': before, 'id': None})
+                results.append({'out': 'nohandle', 'entries': [], 'table': before, 'before': before, 'id': None,
+                                'bcount': len(raw_table(bcls))})
                 continue
             oid = objs[h].id if h is not None else None
             try:
@@ -355,8 +381,9 @@ def run_plain(case):
             except Exception as ex:
                 out = exc_out(ex)
                 conn.verif_sink = sink
-            entries = [x if isinstance(x, str) else fmt_plain_sql(x[1], x[2]) for x in sink]
-            results.append({'out': out, 'entries': entries, 'table': raw_table(cls), 'before': before, 'id': oid})
+            entries = [x if isinstance(x, str) else fmt_plain_sql(x[1], x[2], btable) for x in sink]
+            results.append({'out': out, 'entries': entries, 'table': raw_table(cls), 'before': before, 'id': oid,
+                            'bcount': len(raw_table(bcls))})
     finally:
         conn.verif_sink = None
     ok_by = (len(bysink) % 6 == 0) and all(x.startswith('e') for x in bysink)
@@ -364,7 +391,8 @@ def run_plain(case):
 
 
 def fmt_results(results):
-    return ' ; '.join('%s %s # %s' % (r['out'], ' '.join(r['entries']) or '-', fmt_table(r['table'])) for r in results)
+    return ' ; '.join('%s %s # %s # b%d' % (r['out'], ' '.join(r['entries']) or '-', fmt_table(r['table']), r['bcount'])
+                      for r in results)
 
 
 # ----------------------------------------------------------------------------- oracle, plain class
@@ -392,9 +420,32 @@ def oracle_plain(ctx, case, results):
     def fail(kind, check, what, n):
         ctx.oracle_fail('C19:%s-%s:%s' % (kind, mode, check), what + ' | op %d of %s' % (n, line_of(case)), case_json(case))
 
+    BL = case.get('blisteners', [])
+    bidx = dict((s, [i for i, (s2, _) in enumerate(BL) if s2 == s]) for s in SIGS)
+    spawners = set(i for i, (s2, a) in enumerate(L) if a[0] == 'x')
+    bseen = 0
     for n, (op, r) in enumerate(zip(case['ops'], results)):
         k = op[0]
         ent = r['entries']
+        # rows of class B created from inside the listeners / callbacks of this operation: every one of them
+        # gets its before-events before and its after-events after its INSERT, once per listener of B
+        triggers = sum(1 for x in ent if (x.startswith('e') and int(re.match(r'e.(\d+)@', x).group(1)) in spawners)
+                       or (x.startswith('p') and int(re.match(r'p(\d+)@', x).group(1)) >= SPAWN_CB))
+        b_ins = [(i, int(re.match(r'b:I(\d+)\[', x).group(1))) for i, x in enumerate(ent) if x.startswith('b:I')]
+        if len(b_ins) != triggers or r['bcount'] != bseen + triggers:
+            fail('nested-create', 'write-once', '%d creating listener calls / callbacks, INSERTs of the other class: %s, rows %d -> %d'
+                 % (triggers, [x for _, x in b_ins], bseen, r['bcount']), n)
+        bseen = r['bcount']
+        got_before = [int(re.match(r'b:ec(\d+)@', x).group(1)) for x in ent if x.startswith('b:ec')]
+        if got_before != bidx['c'] * len(b_ins):
+            fail('nested-create', 'before-once', 'before-events of the nested creates went to %s, listeners %s x %d rows: %s'
+                 % (got_before, bidx['c'], len(b_ins), ent), n)
+        for pos, bid in b_ins:
+            got = [(i, int(re.match(r'b:eC(\d+)@', x).group(1))) for i, x in enumerate(ent)
+                   if x.startswith('b:eC') and x.endswith('@%d~' % bid)]
+            if [j for _, j in got] != bidx['C'] or any(i < pos for i, _ in got):
+                fail('nested-create', 'after-once', 'row %d of the other class, created inside a listener/callback: RowCreatedSignal '
+                     'delivered to %s (listeners %s) in %s' % (bid, [j for _, j in got], bidx['C'], ent), n)
         evs = [x for x in ent if x.startswith('e')]
         wr = [x for x in ent if x[0] in 'IUD']
         ps = [x for x in ent if x.startswith('p')]
@@ -528,9 +579,17 @@ def run_chain(case):
         return '%d.%d' % (lv, eff[lv].index(idx))
 
     depth = len(case['levels'])
+    # a plain class B whose rows are created by `x` listeners of the chain classes ("audit row" pattern);
+    # the chain model ignores B (its entries are checked by the oracle and filtered from the comparison)
+    bcls = make_class(False)
+    for sg in ('c', 'C'):
+        f = make_listener(sink, 0, sg, ('o',), prefix='b:')
+        keep.append(f)
+        events.listen(f, bcls, e['sigmap'][sg])
     recs = []
     for lv in range(depth):
-        recs.append([make_listener(sink, (lv, i), s, a, label=label) for i, (s, a, early) in enumerate(case['levels'][lv])])
+        recs.append([make_listener(sink, (lv, i), s, a, label=label, spawn=bcls)
+                     for i, (s, a, early) in enumerate(case['levels'][lv])])
     keep.append(recs)
     for lv in range(depth):
         name = sqlo.uniq('C19H%d_' % lv)
@@ -588,6 +647,8 @@ def run_chain(case):
                     else:
                         rid = x[2]
                     seg.append('I%d@%d' % (tables[m.group(1)], rid))
+                elif m and m.group(1) == bcls.sqlmeta.table:
+                    seg.append('b:I@%d' % x[2])
                 else:
                     seg.append('SQL?%s' % q)
             out.append((lv, oid, seg))
@@ -600,6 +661,15 @@ def oracle_chain(ctx, case, out):
     for n, (lv, oid, seg) in enumerate(out):
         if oid is None:
             continue
+        # rows of the plain class B created from inside listeners of the chain classes
+        b_ins = [(i, int(x.split('@')[1])) for i, x in enumerate(seg) if x.startswith('b:I@')]
+        for pos, bid in b_ins:
+            before = [i for i, x in enumerate(seg) if x.startswith('b:ec0@') and i < pos]
+            after = [i for i, x in enumerate(seg) if x == 'b:eC0@%d~' % bid]
+            if len(after) != 1 or after[0] < pos or not before:
+                ctx.oracle_fail('C19:chain:nested-create:after-once',
+                                'row %d created inside a listener of the chain: RowCreatedSignal delivered %d times in %s'
+                                % (bid, len(after), seg) + ' | create %d of %s' % (n, line_of(case)), case_json(case))
         pos_ins = {}
         for i, x in enumerate(seg):
             m = re.match(r'I(\d+)@(\d+)$', x)
@@ -662,9 +732,22 @@ def gen_listener(rng):
     return (s, ('o',))
 
 
+def gen_blistener(rng):
+    s = rng.choice(['c', 'C', 'C'])
+    return (s, ('p', rng.randint(0, 9))) if rng.random() < 0.4 else (s, ('o',))
+
+
 def gen_plain(rng, maxops):
     lazy = rng.random() < 0.45
     listeners = [gen_listener(rng) for _ in range(rng.choice([0, 1, 2, 3, 3, 4, 5, 6]))]
+    blisteners = []
+    if rng.random() < 0.3:
+        # the "audit row" pattern: listeners / callbacks that create a row of another class
+        for _ in range(rng.choice([1, 1, 2, 3])):
+            s = rng.choice(['c', 'C', 'C', 'C', 'u', 'U', 'd', 'D'])
+            act = ('p', SPAWN_CB + rng.randint(0, 9)) if (s in HAS_POST and rng.random() < 0.4) else ('x',)
+            listeners.insert(rng.randint(0, len(listeners)), (s, act))
+        blisteners = [gen_blistener(rng) for _ in range(rng.choice([1, 2, 3]))]
     ops = [('C', gen_kw(rng, allow_bad=False, allow_unknown=False))]
     nh = 1
     for _ in range(rng.randint(3, maxops)):
@@ -687,7 +770,7 @@ def gen_plain(rng, maxops):
             ops.append(('F', h))
         else:
             ops.append(('L',))
-    return {'kind': 'P', 'lazy': lazy, 'listeners': listeners, 'ops': ops}
+    return {'kind': 'P', 'lazy': lazy, 'listeners': listeners, 'ops': ops, 'blisteners': blisteners}
 
 
 def gen_chain(rng):
@@ -697,6 +780,8 @@ def gen_chain(rng):
         for _ in range(rng.choice([0, 1, 2, 3])):
             s = rng.choice(['c', 'C', 'C', 'C'])
             act = ('p', rng.randint(0, 9)) if rng.random() < 0.4 else ('o',)
+            if rng.random() < 0.15:
+                act = ('x',)              # creates a row of another (plain) class
             own.append((s, act, rng.random() < 0.5))
         own.sort(key=lambda x: not x[2])      # connections made before the subclass exists come first
         levels.append(own)
@@ -705,7 +790,7 @@ def gen_chain(rng):
 
 
 def fmt_chain(out):
-    segs = [x for (_, _, seg) in out for x in seg]
+    segs = [x for (_, _, seg) in out for x in seg if not x.startswith('b:')]
     return ' '.join(segs) or '-'
 
 
